@@ -28,7 +28,7 @@ checks = {
          'trusts the projection model (c07params.project); empty containers compared at info level; window convention [a,b)', 'DESIGN.md 3/C07'),
  'C13': ('exploration', 'crash/hang monitor: recovered panics, worker death, per-input cpu+rss watchdog; store read-back after every request',
          'Hostile request content against valid schemas: JSON shape mismatches at every document position x 10 kinds, missing/duplicate keys, all truncations and single-character mutations of documents, paths and queries, grammar-fuzz catalogs for paths, queries and XPath, XML shape mismatches, SetValue with every Go kind; any panic, fatal error or cpu/memory overrun is a violation; read-only requests must leave the store unchanged and the store must stay exportable.',
-         'workers are separate processes; watchdog thresholds 20 s cpu / 3 GiB rss per input', 'DESIGN.md 3/C13'),
+         'workers are separate processes; watchdog thresholds 20 s cpu / 3 GiB rss per input; targets: reference store and the reflection nodes over Go values', 'DESIGN.md 3/C13'),
  'C14': ('exploration', 'crash/hang monitor over corpus prefixes, token mutations, pathological shapes, reference cycles and opener faults; walker over every successful load',
          'Every byte prefix of every repository YANG file <= 2 KiB (token-boundary prefixes otherwise), sampled single/double token mutations, pathological nesting / concatenation / argument sizes, typedef / grouping / identity / import cycles and faulty openers are loaded in worker processes under panic recovery, fatal-error attribution and a per-input cpu/rss watchdog; every module that loads is walked through all public accessors.',
          'exhaustive only in truncation points per corpus text; mutations sampled', 'DESIGN.md 3/C14'),
@@ -43,19 +43,19 @@ checks = {
          'trusts the model tree and net/url escaping; stores: reference store and JSON reader', 'DESIGN.md 3/C08'),
  'C09': ('exploration', 'runtime monitor: invariant scan of the target store after every step of an upsert history + reference model (SwitchCase)',
          'After every upsert of histories of 2..12 steps that alternate cases (nested choices, shorthand cases, cases with leaves/leaf-lists/containers/lists, choices in lists) the store is scanned for choices holding data of two cases, compared with the model and exported.',
-         'trusts dp.Apply/clearOtherCases (model) and the reference store', 'DESIGN.md 3/C09'),
+         'trusts dp.Apply/clearOtherCases (model); targets: reference store, nodeutil.Reflect and nodeutil.Node over Go maps (read back with package reflect)', 'DESIGN.md 3/C09'),
  'C12': ('fault_enumeration', 'runtime monitor: recorded callback trace + offline trace checker; every fault position k of every scenario enumerated',
          'Each scenario (operation x entry point x trees) is run once fault-free to measure its callback trace, then once per callback position with that callback failing on the source or target side; the offline checker verifies begin/end pairing per node identity, the set of notified nodes, wrapping of the injected error and absence of writes after the failure. Exhaustive in k per scenario; scenarios are sampled.',
          'trusts the recording wrapper (pass-through) and the reference store', 'DESIGN.md 3/C12'),
  'C18': ('exploration', 'runtime monitor: reference model (delete/replace) vs store read directly after every step + key-uniqueness scan + Find probes',
          'Histories of 3..15 delete / replace / insert / upsert operations (first, middle, last, only entry; whole list; container; delete-then-reinsert) are replayed against model and library; after each step the store equals the model, no list holds a duplicate key, the removed node is no longer found and remaining nodes are.',
-         'trusts dp.DeleteAt/Apply (model); stores: reference store (reflection stores: see DESIGN)', 'DESIGN.md 3/C18'),
+         'trusts dp.DeleteAt/Apply (model); stores: reference store, nodeutil.Reflect / nodeutil.Node over Go maps, slices and reflect.StructOf structs (zero value = unset in struct shape)', 'DESIGN.md 3/C18'),
  'C03': ('exploration', 'runtime monitor: executable reference model (keyed deep merge) vs target store read directly; error class via errors.Is',
          'Every edit call on a generated (schema, target, source, strategy, entry point, direction, source implementation) tuple and on histories of up to 6 such calls is compared with an executable model written from the statement; the target is a harness store read without any library read path. Held on the executions observed.',
-         'trusts the model dp.Apply (60 lines) and the reference store; domain: schemas without choice/when, non-empty lists, key-preserving edits', 'DESIGN.md 3/C03'),
+         'trusts the model dp.Apply (60 lines); targets: reference store and the reflection nodes over Go maps / slices / structs, sources also JSON / XML readers and map-shaped reflection nodes; domain: schemas without choice/when, key-preserving edits', 'DESIGN.md 3/C03'),
  'C04': ('exploration', 'runtime monitor: write-logging capture store + encoding/json token-stream decoder vs model tree; round trip through the library reader',
          'Exports of generated trees (all leaf types, nested/compound-key lists, choices, augmenting module) are captured by a store that logs every write (exactly-once, schema order) and JSON output is decoded token by token with the standard library and compared with the model; the writer output is fed back through ReadJSON and exported again.',
-         'trusts encoding/json and the model tree; decimal64 compared at float64 precision', 'DESIGN.md 3/C04'),
+         'trusts encoding/json and the model tree; decimal64 compared at float64 precision; every fourth case also exports from a reflection node over Go values', 'DESIGN.md 3/C04'),
  'C10': ('exploration', 'runtime monitor: denotation oracle (math/big) over the product target format x source kind x boundary catalog',
          'Every val.Conv result for ~30k (format, source) pairs per run is compared with the arbitrary-precision denotation of the source: error, or exactly the same number/text/truth value/sequence; in-range natural sources must convert.',
          'trusts math/big and strconv; decimal64 exactness is float64-nearest (documented representation)', 'DESIGN.md 3/C10'),
